@@ -5,10 +5,10 @@ import json
 CLAIMED = {
  "C01": ("DESIGN.md §5 C01", "every byte string up to N bytes through all five strict front-ends vs an RFC 8259 reference recogniser executed symbolically on the same bytes"),
  "C02": ("DESIGN.md §5 C02", "number literals with every digit symbolic at and around the accumulator thresholds (int64 exact, float64 = ParseFloat of a text with the same decimal denotation, json.Number same denotation) and string literals with symbolic content / escapes vs a reference decoder, through the parsers and the tokenizer"),
- "C03": ("DESIGN.md §5 C03", "differential: oj.Parse vs reader variants behind a chunking reader (every split point / composition), tokenizer+Builder, gen.Parser+Simplify, validator, sen.Parser on valid JSON"),
+ "C03": ("DESIGN.md §5 C03", "differential: oj.Parse vs reader variants behind a chunking reader (every split point / composition), tokenizer+Builder, gen.Parser+Simplify, validator, sen.Parser on valid JSON; JSON skeletons with free bytes; the SEN family (Parse, ParseReader, Tokenizer, Tokenizer.Load) among themselves; multi-document mode (callbacks, channels, tokenizers) for the sequence of documents delivered"),
  "C04": ("DESIGN.md §5 C04", "AppendJSONString on every string up to N bytes and oj.Writer on tree shapes with symbolic leaves under the option combinations, decoded by a reference JSON decoder and compared with the input; streaming Write with symbolic WriteLimit vs the in-memory text; Sort determinism over all map iteration orders"),
  "C05": ("DESIGN.md §5 C05", "jp.Expr.Get vs a reference selector over concrete data shapes with symbolic indexes, slice bounds, keys and filter constants, every fragment kind in every position"),
- "C06": ("DESIGN.md §5 C06", "no-panic assertions on every path of the parser harnesses (panics are explicit fault branches of the executor)"),
+ "C06": ("DESIGN.md §5 C06", "no-panic / terminates assertions on every byte string up to N bytes through the JSON and SEN parsers, validators and tokenizers, and through the JSONPath / filter-script text parser (Must* panics must carry an error, never a runtime fault); panics are explicit fault branches of the executor, non-termination candidates are confirmed natively"),
  "C10": ("DESIGN.md §5 C10", "sen.Writer -> sen.Parser round trip of every string up to N bytes in four contexts (top, element, value, key) and of tree shapes with symbolic leaves under writer options; the oracle is the real parser plus tree equality"),
  "C11": ("DESIGN.md §5 C11", "Has, First, FirstFound, Locate, Walk, GetNodes, FirstNode and Get on gen data against Get, same symbolic path space as C05"),
  "C12": ("DESIGN.md §5 C12", "operator x left kind x right kind matrix with symbolic operand values against the property's typed comparison semantics; totality; ==/!= complement; multi-valued operands; Script.Match vs filter"),
